@@ -348,6 +348,21 @@ static bool run(std::vector<std::string> w, std::vector<std::string> &out) {
         std::string r = vh::hex(dig.get(), 16);
         out.push_back(with_ref(has_ref, ref, r, "P md5 " + r)); return true;
     }
+    // one update of 2^k zero bytes, fed in `pieces` equal pieces (heap block of exactly that size). The expected digest
+    // comes from the op line (python hashlib): the Lean driver cannot evaluate half a gigabyte through its list model.
+    if (op == "md5.big" && w.size() == 3 && has_ref && vh::to_u64(w[1], n) && n >= 6 && n <= 30 && vh::to_u64(w[2], v)
+        && (v == 1 || v == 2 || v == 4)) {
+        size_t total = (size_t)1 << n, piece = total / v;
+        uint8_t *p = (uint8_t *)calloc(total, 1);
+        if (!p) { out.push_back("P md5.big no-memory"); return true; }
+        crypto::MD5 md5;
+        for (uint64_t i = 0; i < v; ++i) md5.update(p + i * piece, piece);
+        Exact dig(16);
+        md5.finish(dig.get());
+        free(p);
+        std::string r = vh::hex(dig.get(), 16);
+        out.push_back(with_ref(has_ref, ref, r, "P md5.big " + r)); return true;
+    }
     // ------------------------------------------------------------------ AES
     if ((op == "aes.enc" || op == "aes.dec" || op == "aes.rt") && w.size() == 3 && vh::unhex(w[1], a) && vh::unhex(w[2], b)
         && a.size() == 16 && b.size() == 16) {
